@@ -170,4 +170,19 @@ Qed.
 Theorem cont_refused : forall r, r_cont r = StStopped -> do_cont r = (r, err E_CantContinue).
 Proof. intros r H. unfold do_cont, rbind, rget. rewrite H. reflexivity. Qed.
 
+(* waiting for a key: the wait state answers "key wanted" again and changes nothing, so an interrupt taken while the
+   program waits, followed by CONT, comes back to the same wait with the same address and stack *)
+Theorem key_wait_asks_again : forall r k, r_state r = StInkey -> rt_execute O r k = Ok (r, EvInkey).
+Proof. intros r k H. unfold rt_execute. rewrite H. reflexivity. Qed.
+
+Theorem key_wait_resumes : forall r k, r_state r = StRunning -> r_cont r = StInkey ->
+  let r' := fst (do_cont r) in
+  snd (do_cont r) = Ok (Some EvRunning) /\ r_state r' = StInkey /\ r_pc r' = r_cont_pc r /\ r_stack r' = r_stack r
+  /\ r_vars r' = r_vars r /\ rt_execute O r' k = Ok (r', EvInkey).
+Proof.
+  intros r k Hr Hc. destruct (cont_restores r StInkey Hc eq_refl Hr) as [Hf Hs]. cbn zeta. rewrite Hf, Hs.
+  split; [reflexivity |]. split; [reflexivity |]. split; [reflexivity |]. split; [reflexivity |]. split; [reflexivity |].
+  apply key_wait_asks_again. reflexivity.
+Qed.
+
 End Cont.
